@@ -283,7 +283,9 @@ class Irving:
 
     maximum_weight_closed_subset = self.find_maximum_weight_closed_subset(P_prime, rotations, valuation_profile_1, valuation_profile_2)
 
-    rotations_to_eliminate = [rotations[i] for i in maximum_weight_closed_subset]
+    # Rotations are discovered only after all of their predecessors have been eliminated, so eliminating the chosen
+    # rotations in order of discovery guarantees that each one is exposed when its turn comes.
+    rotations_to_eliminate = [rotations[i] for i in sorted(maximum_weight_closed_subset)]
     ans = self.eliminate_rotations(stable_matching, rotations_to_eliminate)
     return [(i + self.index_fixer, j + self.index_fixer) for i, j in ans]
 
